@@ -83,7 +83,7 @@ def determinism(props: list[str], n: int, procs: list[int], seed: int) -> int:
     return 1 if bad else 0
 
 
-def mutants(only: list[str] | None, wall: int) -> int:
+def mutants(only: list[str] | None, wall: int, save_replays: bool = False) -> int:
     """Sensitivity: every seeded change (independent sub-agents' and the author's own) must make its property's
     check fail. Each patch is applied to a scratch copy of /repo/src (never to /repo); evidence and replay files of
     these runs go to a scratch directory as well."""
@@ -123,11 +123,26 @@ def mutants(only: list[str] | None, wall: int) -> int:
             table.append({"mutant": name, "property": prop, "result": "caught" if ok else f"MISSED (exit {r.returncode})", "rules": rules,
                           "first": (lines[0][:260] if lines else ""), "wall_s": round(time.monotonic() - t0)})
             missed += 0 if ok else 1
+            if ok and save_replays:
+                # keep the first replay file the check produced with the change applied (it replays against a patched tree only)
+                rdir = os.path.join(scratch, "replays")
+                files = sorted(f for f in os.listdir(rdir) if f.endswith(".json")) if os.path.isdir(rdir) else []
+                if files:
+                    shutil.copy(os.path.join(rdir, files[0]), os.path.join(d, "detected_replay.json"))
             print(f"MUTANT {name:12s} {prop} {'caught' if ok else 'MISSED'} {rules} {round(time.monotonic() - t0)}s", flush=True)
         finally:
             shutil.rmtree(scratch, ignore_errors=True)
-    with open(os.path.join(seeded, "SENSITIVITY.json"), "w") as f:
-        json.dump({"tier": "quick", "wall_cap_s": wall, "results": table}, f, indent=1)
+    out = os.path.join(seeded, "SENSITIVITY.json")
+    if only and os.path.exists(out):
+        # partial run: merge into the existing table
+        old = json.load(open(out)).get("results", [])
+        names = {r["mutant"] for r in table}
+        table_all = [r for r in old if r["mutant"] not in names] + table
+        table_all.sort(key=lambda r: r["mutant"])
+    else:
+        table_all = table
+    with open(out, "w") as f:
+        json.dump({"tier": "quick", "wall_cap_s": wall, "results": table_all}, f, indent=1)
     print(f"SENSITIVITY {len(table) - missed}/{len(table)} seeded changes caught at quick tier")
     return 1 if missed else 0
 
@@ -137,13 +152,14 @@ def main() -> int:
     ap.add_argument("cmd", choices=["determinism", "mutants"])
     ap.add_argument("--only", default="")
     ap.add_argument("--wall", type=int, default=100)
+    ap.add_argument("--save-replays", action="store_true")
     ap.add_argument("--props", default="C05,C11")
     ap.add_argument("--n", type=int, default=200)
     ap.add_argument("--procs", default="16,4")
     ap.add_argument("--seed", type=int, default=int(os.environ.get("VERIF_SEED", "0")))
     a = ap.parse_args()
     if a.cmd == "mutants":
-        return mutants([x for x in a.only.split(",") if x] or None, a.wall)
+        return mutants([x for x in a.only.split(",") if x] or None, a.wall, a.save_replays)
     if a.cmd == "determinism":
         return determinism(a.props.split(","), a.n, [int(x) for x in a.procs.split(",")], a.seed)
     return 2
